@@ -219,8 +219,8 @@ func cryptoStreams(c *mon.Ctx, h *hostile.Harness) {
 					}
 				}
 			case 3, 4: // one key malformed
-				if n > 0 {
-					i := r.Intn(n)
+				if len(keys) > 0 {
+					i := r.Intn(len(keys))
 					pv := pointVariants(r, keys[i], agg, 48)
 					v := pv[1+r.Intn(len(pv)-1)]
 					keys = append([][]byte{}, keys...)
@@ -234,17 +234,17 @@ func cryptoStreams(c *mon.Ctx, h *hostile.Harness) {
 					keys = nil
 					class += ",keys=nil"
 				case 1:
-					if n > 0 {
-						keys = keys[:n-1]
+					if len(keys) > 0 {
+						keys = keys[:len(keys)-1]
 						class += ",keys=one-fewer"
 					}
 				case 2:
 					keys = append(append([][]byte{}, keys...), uni[69].BLS.PublicKey)
 					class += ",keys=one-more"
 				default:
-					if n > 1 {
+					if len(keys) > 1 {
 						keys = append([][]byte{}, keys...)
-						keys[0], keys[n-1] = keys[n-1], keys[0]
+						keys[0], keys[len(keys)-1] = keys[len(keys)-1], keys[0]
 						class += ",keys=reordered"
 					}
 				}
@@ -259,8 +259,8 @@ func cryptoStreams(c *mon.Ctx, h *hostile.Harness) {
 					weights = nil
 					class += ",weights=nil"
 				case 1:
-					if n > 0 {
-						weights = weights[:n-1]
+					if len(weights) > 0 {
+						weights = weights[:len(weights)-1]
 						class += ",weights=one-fewer"
 					}
 				case 2:
